@@ -80,7 +80,7 @@ SPEC = dict(
         "no rt verdict is predicted for the structurally defined class newline-inside-statement: a /* */ comment in front of a token that does not start its statement, a blank line directly behind the keyword of a return statement, a bare return used as an operand, a composition access [..] behind a call/access of the same identifier chain whose text spans lines (x := a([1,2,3,4,5])[0]), a # comment unless it sits on an identifier/number leaf and is printed directly behind that token at the end of a line",
         "no idem verdict is predicted for the class layout-not-idempotent: the class above, any /* */ comment, a blank line in front of a token that does not start its statement or in front of an infix operator, a mutex/sink statement followed by a statement without a blank line before it",
         "consequence: the comment / blank-line dimension of the quantifier is essentially unverified for rt (848 quick cases) and idem (1446 quick cases) — text fidelity of the printer model is checked there, Go's verdicts are only counted",
-        "inside the classes with a definite rt=diff (raw-string-kind, mul-right-brackets) the trees must agree modulo the known local difference (eqm=ok: raw flag ignored, product spliced into the left spine of its right operand) and behaviour must be preserved unless a raw string contains {{ or the spliced chain contains // or %; stmt-starts-with-sign and bare-return-at-end predict the exact verdicts",
+        "inside the classes with a definite rt=diff (raw-string-kind, mul-right-brackets) the trees must agree modulo the known local difference (eqm=ok: raw flag ignored, product spliced into the left spine of its right operand) and behaviour must be preserved unless a raw string contains {{, or (mul-right-brackets) the original itself raises an error / has side effects, where re-association may change which error is raised first; stmt-starts-with-sign and bare-return-at-end predict the exact verdicts",
         "all classes are computed independently by the harness (Go AST) and the driver (payload AST); Go's real outcomes inside the classes are counted in input_distribution; outside the classes rt=ok idem=ok is demanded",
     ],
     decode=decode,
